@@ -60,6 +60,8 @@ def main():
             json.dump(old, f, indent=1)
         print("confirmation refreshed")
         return
+    if skip_confirm and os.path.exists(os.path.join(dst, "meta.json")):
+        meta["confirmed"] = json.load(open(os.path.join(dst, "meta.json"))).get("confirmed", {})      # confirmed in an earlier run
     shutil.rmtree(dst, ignore_errors=True)
     shutil.copytree(mdir, dst)
     # 4. run the checks against the change.  Default: applied to /repo itself and undone afterwards.
